@@ -49,23 +49,23 @@ func (s *State) set(key, term string) { s.comp[key] = term }
 
 // Obligation is one proof duty.
 type Obligation struct {
-	Name   string
-	Fn     string // top-level function under verification
-	Kind   string // ensures, requires, inv-entry, inv-step, bounds, nil, alloc, assert-type, div0, panic, frame, ginv, append-alias, canary
-	Tags   []string
-	Cond   string
-	Goal   string
-	Src    string
-	Text   string // human-readable clause / instruction
+	Name    string
+	Fn      string // top-level function under verification
+	Kind    string // ensures, requires, inv-entry, inv-step, bounds, nil, alloc, assert-type, div0, panic, frame, ginv, append-alias, canary
+	Tags    []string
+	Cond    string
+	Goal    string
+	Src     string
+	Text    string // human-readable clause / instruction
 	Finding string // carved-out known finding id
-	Canary bool   // must FAIL
+	Canary  bool   // must FAIL
 	// results
-	Status string // discharged, failed, error
-	Solver string
-	Secs   float64
-	Model  string
+	Status  string // discharged, failed, error
+	Solver  string
+	Secs    float64
+	Model   string
 	SmtFile string
-	idx    int
+	idx     int
 }
 
 type Item struct {
@@ -75,26 +75,26 @@ type Item struct {
 
 // Fx is the verification context of one top-level function.
 type Fx struct {
-	rootAlloc string // allocation counter at the entry of the verified function
-	E        *Engine
-	top      *ssa.Function
-	topKey   string
-	decls    []string
-	declared map[string]bool
-	compSort map[string]string
-	items    []Item
-	obls     []*Obligation
-	nfresh   int
-	lits     map[string]string
-	litOrder []string
-	used     map[string]bool // trusted contracts used
-	inlined  map[string]bool
-	notes    []string
-	oblCount map[string]int
-	observ   []string // observable terms for model extraction
-	binders  int      // >0 while evaluating under a quantifier
-	bound    []string // names of the bound variables in scope
-	asserted map[string]bool
+	rootAlloc  string // allocation counter at the entry of the verified function
+	E          *Engine
+	top        *ssa.Function
+	topKey     string
+	decls      []string
+	declared   map[string]bool
+	compSort   map[string]string
+	items      []Item
+	obls       []*Obligation
+	nfresh     int
+	lits       map[string]string
+	litOrder   []string
+	used       map[string]bool // trusted contracts used
+	inlined    map[string]bool
+	notes      []string
+	oblCount   map[string]int
+	observ     []string // observable terms for model extraction
+	binders    int      // >0 while evaluating under a quantifier
+	bound      []string // names of the bound variables in scope
+	asserted   map[string]bool
 	freshRefs  map[string]bool // refs allocated by the function under verification (objects under construction)
 	topFrame   *Frame
 	entryState *State
@@ -506,24 +506,24 @@ func (fx *Fx) mapLoad(st *State, m, k Val) Val {
 // ---- engine-wide registries ----
 
 type Engine struct {
-	P        *Program
-	S        *Specs
-	typeIDs  map[string]int
-	typeByID []types.Type
-	globals  map[*ssa.Global]int
-	sentinel map[*ssa.Global]bool // error globals initialised by errors.New / fmt.Errorf
+	P              *Program
+	S              *Specs
+	typeIDs        map[string]int
+	typeByID       []types.Type
+	globals        map[*ssa.Global]int
+	sentinel       map[*ssa.Global]bool   // error globals initialised by errors.New / fmt.Errorf
 	mutableGlobals map[*ssa.Global]string // globals stored to outside package initialisers
-	typesByName map[string]types.Type
-	Opt      Options
+	typesByName    map[string]types.Type
+	Opt            Options
 }
 
 type Options struct {
-	Timeout   int // seconds per obligation
-	OutDir    string
-	Tier      string
-	Seed      int
-	Verbose   bool
-	KeepSmt   bool
+	Timeout int // seconds per obligation
+	OutDir  string
+	Tier    string
+	Seed    int
+	Verbose bool
+	KeepSmt bool
 }
 
 func (E *Engine) typeID(name string) int {
